@@ -6,7 +6,8 @@
            the read (`pending_write_blocks_read`), whatever is written later above ts or as a marker cannot change the
            value served at ts (`read_stable`), a commit writes exactly the prewritten value at the given commit ts,
            an optimistic prewrite is refused when a newer commit exists (`prewrite_conflict_detected`);
-           the SI oracle's verdict is sound for the recorded reads (`siReads_sound`).
+           the SI oracle compares every recorded read with `readOK` below (the newest commit at or below the reader's
+           start ts in the final store) — a definition, checked per run, not a theorem.
            `snapshot_stable_over_all_runs`: for EVERY sequence of store commands (any interleaving of any number of
            clients' prewrites, commits, rollbacks, status checks, resolves, GC …) in which later commits land above
            `ts` (what rule 7 / max_ts give), GC safe points stay ≤ `ts` and the range is not destroyed, the value a
